@@ -8,6 +8,12 @@
 (* anything else is read, the wasm sender field is never read: one wrong value is tried.         *)
 EXTENDS Scheduler
 Other(a) == CHOOSE b \in Callers : b # a
+\* perturbations and queries read nothing but the id and change nothing: one job description per chain is tried
+PertR(who, id) ==
+  \/ \E c \in Chains : LET t == CHOOSE x \in Targets : TRUE  p == CHOOSE x \in Payloads : TRUE IN
+        \/ Simulate(who, IF who \in Accounts THEN "tx" ELSE "wasm", id, c, t, p, "bare", TRUE, FALSE)
+        \/ who \in Accounts /\ RolledBack(who, id, c, t, p, "bare", TRUE, FALSE)
+  \/ who \in Accounts /\ Query(id)
 NextR ==
   \E who \in Callers, id \in JobIds \cup {BadId} : \E as \in {who, Other(who)} :
      \/ /\ (who \in Contracts => as = who)
@@ -17,5 +23,8 @@ NextR ==
            /\ (via # "tx" => pg # 2)
            /\ (via = "legacy" => as = who)
            /\ Execute(who, as, via, id, pg, sp)
+     \/ as = who /\ PertR(who, id)
+\* the full request space, perturbations pruned as above
+NextFull == NextCore \/ \E who \in Callers, id \in JobIds \cup {BadId} : PertR(who, id)
 MCView == svars
 =============================================================================
